@@ -102,6 +102,8 @@ pub fn place_on_matrix(
 
         datamasking::mask(&mut copy, mask);
         let matrix_score = score::score(&copy, &copy_transpose);
+        #[cfg(fast_qr_verif)]
+        crate::verif::record_candidate(mask, matrix_score, &copy);
         if matrix_score < best_score {
             best_score = matrix_score;
             best_mask = mask;
